@@ -38,7 +38,7 @@ CONSTANTS
                      \*                ofmt (image_opts.format, "" = none), cov, minres, maxres (0 = none),
                      \*                fwd (forward_req_params, lower case), opq (an opacity is configured)
                      \*   kind "tile": host, grid [srs, bbox, res, ts, ul], cov, minres, maxres
-                     \*   cov = [on, srs, bbox]; lattice: coordinates are integers the model computes with
+                     \*   cov = [on, srs, bbox, hole]; lattice: coordinates are integers the model computes with
   Groups,            \* WMS layer name -> sequence of source ids (its `sources:`)
   SrsClass,          \* SRS code -> class: SRS.__eq__ compares proj definitions (EPSG:3857 = EPSG:900913)
   LatLong,           \* the codes with is_latlong
@@ -97,7 +97,14 @@ ResOK(s, qq) == IF qq.exact THEN RangeOK(Src[s].minres, Src[s].maxres, qq) ELSE 
 Meets(a, b)  == a[1] < b[3] /\ a[3] > b[1] /\ a[2] < b[4] /\ a[4] > b[2]
 Inside(outer, inner) == outer[1] <= inner[1] /\ outer[3] >= inner[3] /\ outer[2] <= inner[2] /\ outer[4] >= inner[4]
 
-CovMeets(s, qq)    == IF qq.exact THEN Meets(Src[s].cov.bbox, qq.bbox) ELSE qq.rel[s].cov # "disjoint"
+\* a coverage that is not a rectangle: the box without the interior of `hole` (a geometry; touching counts as meeting)
+HoleOn(s) == Src[s].cov.hole # <<0, 0, 0, 0>>
+MeetsClosed(a, b) == a[1] <= b[3] /\ a[3] >= b[1] /\ a[2] <= b[4] /\ a[4] >= b[2]
+InsideStrict(outer, inner) == outer[1] < inner[1] /\ outer[3] > inner[3] /\ outer[2] < inner[2] /\ outer[4] > inner[4]
+CovMeets(s, qq)    == IF qq.exact
+                        THEN IF HoleOn(s) THEN MeetsClosed(Src[s].cov.bbox, qq.bbox) /\ ~InsideStrict(Src[s].cov.hole, qq.bbox)
+                                          ELSE Meets(Src[s].cov.bbox, qq.bbox)
+                        ELSE qq.rel[s].cov # "disjoint"
 CovContains(s, qq) == IF qq.exact THEN Inside(Src[s].cov.bbox, qq.bbox) ELSE qq.rel[s].cov = "inside"
 
 \* image/__init__.py bbox_position_in_image(bbox, size, src_bbox): int() of non-negative pixel coordinates
